@@ -122,6 +122,20 @@ theorem Seg.one_inv {o : Opts} {path : Path} {put : Container → Cif} {code : S
     | nil => exact ⟨s', r, by simpa using h1, h2.1, h3, h2.2.1, h4⟩
     | cons _ _ => exact h2.2.2.elim
 
+/-- the `_at` statements of the item-level classes: `b` items behind the defect, `a` items in front -/
+theorem Seg.of_at {o : Opts} {path : Path} {put : Container → Cif} {code : Str} {isBlock : Bool} {T : List TokSpec}
+    {fs : List Container} {ls : List Loop} {fs' : List Container} {ls' : List Loop} {C : Code} {j n a b need : Nat}
+    {follow : List TokSpec → Prop}
+    (h : ∀ (rest : List TokSpec) (s : PS) (fuel : Nat) (w : W), w.cif = put (.mk code fs ls) → need ≤ fuel → follow rest →
+      Feeds o s (T ++ rest) →
+      ∃ s' r, elemsLoop o (fuel + b + 1 + a) s (some path) isBlock acceptAll w
+          = elemsLoop o fuel s' (some path) isBlock acceptAll { log := r :: w.log, cif := put (.mk code fs' ls') }
+        ∧ r.code = C ∧ Feeds o s' rest ∧ RepAt o s j r ∧ At o s n s') :
+    Seg o path put code isBlock T fs ls fs' ls' [(C, j)] n (b + 1 + a) need follow :=
+  Seg.one fun rest s fuel w hw hf hfol hF => by
+    have e : fuel + (b + 1 + a) = fuel + b + 1 + a := by omega
+    rw [e]; exact h rest s fuel w hw hf hfol hF
+
 /-- weaker demands on what follows / more fuel -/
 theorem Seg.weaken {o : Opts} {path : Path} {put : Container → Cif} {code : Str} {isBlock : Bool} {T : List TokSpec}
     {fs : List Container} {ls : List Loop} {fs' : List Container} {ls' : List Loop} {sp : List (Code × Nat)} {n k need need' : Nat}
